@@ -13,7 +13,7 @@ def setup() -> int:
     """MANIFEST.setup_cmd: regenerate every Extracted/*.lean from /repo, then build the whole Lean library."""
     from . import extract
     extract.extract_all()
-    ok, log = lean_build(['BearVerif', 'beardriver', 'c08driver', 'c05driver'])  # root imports every Core/Lemmas/Props/Driver module; native Bear driver
+    ok, log = lean_build(['BearVerif', 'beardriver', 'c08driver', 'c05driver', 'c06driver'])  # root imports every Core/Lemmas/Props/Driver module; native Bear driver
     print(log[-3000:])
     return 0 if ok else 1
 
